@@ -299,7 +299,9 @@ void TcpConnection::startRead()
 void TcpConnection::startReadInLoop()
 {
   loop_->assertInLoopThread();
-  if (!reading_ || !channel_->isReading())
+  // not once the connection is down: its channel is being (or has been) removed
+  if ((state_ == kConnected || state_ == kDisconnecting)
+      && (!reading_ || !channel_->isReading()))
   {
     channel_->enableReading();
     reading_ = true;
@@ -314,7 +316,9 @@ void TcpConnection::stopRead()
 void TcpConnection::stopReadInLoop()
 {
   loop_->assertInLoopThread();
-  if (reading_ || channel_->isReading())
+  // not once the connection is down: its channel is being (or has been) removed
+  if ((state_ == kConnected || state_ == kDisconnecting)
+      && (reading_ || channel_->isReading()))
   {
     channel_->disableReading();
     reading_ = false;
